@@ -144,9 +144,16 @@ class Obs:
 
     def digest(self) -> Any:
         rc = self.rc
+        def plain(v: Any) -> Any:
+            # symbolic / concrete ints, strings and None as they are; anything else (a coroutine object, an exception
+            # or Recurrent marker returned as the value) by type name: reprs with addresses differ between runs
+            if v is None or isinstance(v, (int, str)):
+                return v
+            return "<%s>" % type(v).__name__
+
         return [
             self.kind,
-            None if self.result is None else self.result.value,
+            None if self.result is None else plain(self.result.value),
             None if self.result is None or self.result.error is None else type(self.result.error).__name__,
             None if self.exc is None else type(self.exc).__name__,
             [(i.node, i.k) for i in rc.invs],
